@@ -32,6 +32,9 @@ fn main() {
         "keys" => h::eng_keys::main(rest),
         "capi" => h::eng_capi::main(rest),
         "cdriver" => h::eng_capi::main_cdriver(rest),
+        "flushdist" => h::eng_repair::main_flushdist(rest),
+        "skipscan" => h::eng_repair::main_skipscan(rest),
+        "capimem" => h::eng_capi::main_mem(rest),
         "mem" => h::eng_mem::main(rest),
         "compfs" => h::eng_compfs::main(rest),
         "rloop" => h::eng_rloop::main(rest),
